@@ -243,7 +243,8 @@ def run_case(case, rec, ssj=None, cache=None):
     classify = suffix_f7.classify
     if g == 'tt':
         m, t, N = case['measure'], case['threshold'], case['N']
-        sizes = [(a, b) for a in range(1, N + 1) for b in range(1, N + 1)]
+        # amin > 1: no short record on the left at all (every left record is longer than some probes)
+        sizes = [(a, b) for a in range(case.get('amin', 1), N + 1) for b in range(1, N + 1)]
         L, R, groups = gen.tight_tables(m, t, sizes)
         base = base_call(L, R, {'kind': 'ws', 'return_set': True})
         view = oracle.TableView(dict(base))
@@ -257,7 +258,7 @@ def run_case(case, rec, ssj=None, cache=None):
             check_filter(ssj, base, fspec, req, view, rec, case, apis=apis, classify=classify)
         if True:
             Ns = case.get('Nsuffix', 10)
-            sizes = [(a, b) for a in range(1, Ns + 1) for b in range(1, Ns + 1)]
+            sizes = [(a, b) for a in range(min(case.get('amin', 1), Ns), Ns + 1) for b in range(1, Ns + 1)]
             L, R, groups = gen.tight_tables(m, t, sizes)
             base2 = base_call(L, R, {'kind': 'ws', 'return_set': True})
             view2 = oracle.TableView(dict(base2))
@@ -434,9 +435,11 @@ def run_shard(shard, rec):
         contracts.attach_filter_utils(overlap=False)
     cache = {}
     if kind == 'tt':
-        for (m, t) in shard['combos']:
+        for ci, (m, t) in enumerate(shard['combos']):
             case = {'gen': 'tt', 'measure': m, 'threshold': t, 'N': shard['N'],
                     'Nsuffix': shard['Nsuffix']}
+            if ci % 3 == 1:
+                case['amin'] = (3, 5, 8)[ci % 9 // 3]
             st = run_case(case, rec, ssj, cache)
             rec.count('required', st['required'])
             rec.case(sig=('tt', m, t, shard['N']), nontrivial=st['required'] > 0, n=4)
